@@ -371,6 +371,17 @@ func enumerate(thorough bool, add0 func(s scen)) {
 			add(scen{V: small, Ops: ops, Gap: -1, TicketDrop: k})
 		}
 	}
+	// T2. the same loss, but the operations start while the ticket is still unacknowledged (no retransmission
+	// has happened yet): a key update next to another post-handshake flight of the same sender
+	for _, v := range []*checks.Variant{base, small} {
+		for k := 1; k <= 4; k++ {
+			for _, ops := range [][]opKind{{opUsNo, opWs}, {opUsNo, opWs, opWs, opWc}, {opUsReq, opWs, opWc}, {opUcNo, opWc, opWs}, {opUsNo, opUsNo, opWs}} {
+				for _, g := range []int{-1, 0, 1, 2, 3} {
+					add(scen{V: v, Ops: ops, Gap: g, TicketDrop: k, NoSettle: true})
+				}
+			}
+		}
+	}
 	// F. other configurations: connection IDs, other suites
 	others := []*checks.Variant{withCID(base)}
 	otherLen := 2
